@@ -142,6 +142,18 @@ def expected_delivery(acc_bytes, completions, ins):
     return exp, lost, pending
 
 
+def drive_checked(ctx, scen, with_dump=False):
+    """drive(); a legal configuration (ratio >= 4) that cannot be constructed or simulated is itself a failing input"""
+    try:
+        return drive(scen, with_dump)
+    except Exception as ex:
+        import traceback
+        ctx.violation(dict({k: scen[k] for k in ('sys_f', 'uart_f', 'bytes', 'gaps', 'early', 'pacing', 'seed', 'tail', 'max_cycles') if k in scen},
+                           what='the link cannot be built / simulated at this legal ratio: %s: %s' % (type(ex).__name__, ex),
+                           traceback=traceback.format_exc()[-1500:], stage='build'))
+        return None
+
+
 def judge(ctx, scen, res):
     """impl vs spec on one run.  returns True when the run is fine (possibly a known finding)."""
     P = res['P']
@@ -238,8 +250,8 @@ def kernel_compare(ctx, tag, scens):
     """kernel model (Model/SimKernel.v with every leaf = its generated function) against the real simulator on the full link, all wires."""
     batch = []
     for scen in scens:
-        res = drive(scen, with_dump=True)
-        if not judge(ctx, scen, res): return 'spec'
+        res = drive_checked(ctx, scen, with_dump=True)
+        if res is None or not judge(ctx, scen, res): return 'spec'
         batch.append((res['dp'], res['steps'], res['init'], res['trace']))
         ctx.count(('kernel', scen['sys_f'], tuple(scen['bytes']), scen['pacing']), n=len(res['steps']))
     diffs = netlist.compare(tag, batch, timeout=900)
@@ -287,7 +299,7 @@ def block_ties(ctx, ncyc):
         items.append('map (fun s => d_valid s + 2 * d_desync s + 4 * d_v s) (runs des_step des_init [%s])' % '; '.join('{| di_rx := %d; di_ready := %d; di_sample := %d |}' % i for i in ins))
         exps.append(obs); descr.append(('UARTDeserializer', p_s, ins)); ctx.count(('block', 'des', p_s), n=ncyc)
     # clock generation and recovery alone: random rx / desync
-    for ratio in (2, 4, 5, 7, 12, 33):
+    for ratio in (4, 5, 7, 10, 12, 18, 33, 36):        # legal ratios only (>= 4); n = 5, 9, 18 sit just above a power of two (counter width bands)
         with quiet():
             hw = py4hw.HWSystem(); rx, ds, pu, smp = hw.wire('rx'), hw.wire('ds'), hw.wire('pu'), hw.wire('smp')
             ClockGenerationAndRecovery(hw, 'cgr', rx, ds, pu, smp, ratio, 1); sim = hw.getSimulator()
@@ -304,7 +316,7 @@ def block_ties(ctx, ncyc):
             n, '; '.join('(%d, %d)' % i for i in ins)))
         exps.append(obs); descr.append(('ClockGenerationAndRecovery', ratio, ins)); ctx.count(('block', 'cgr', ratio), n=ncyc)
     # clock divider with a random reset; edge detectors
-    for ratio in (2, 4, 6, 9, 20):
+    for ratio in (4, 6, 9, 10, 20, 22, 34):
         with quiet():
             hw = py4hw.HWSystem(); rs, ck = hw.wire('rs'), hw.wire('ck')
             ClockDivider(hw, 'div', ratio, 1, ck, reset=rs); sim = hw.getSimulator()
@@ -369,8 +381,8 @@ def sweep(ctx, scens, tag, ties, with_model=True, chunk=40):
     then the hand model in Coq on the same inputs (in chunks); a model mismatch is appended to `ties`."""
     done = []
     for scen in scens:
-        res = drive(scen)
-        if not judge(ctx, scen, res): return False
+        res = drive_checked(ctx, scen)
+        if res is None or not judge(ctx, scen, res): return False
         P = res['P']
         for (t, b), g in zip(res['accepted'], scen['gaps']):
             ctx.count(('byte', scen['sys_f'], b, min(g, 3 * P + 1), scen['pacing'][0]))
@@ -400,7 +412,8 @@ def stall_cases(ctx):
         P = 2 * half_period(ratio, 1)
         scen = {'sys_f': ratio, 'uart_f': 1, 'bytes': [0x55, 0xA3], 'gaps': [0, 0], 'early': True, 'pacing': ('stall', until), 'seed': 5, 'tail': 4 * P,
                 'max_cycles': until + 8 * P}
-        res = drive(scen)
+        res = drive_checked(ctx, scen)
+        if res is None: return False
         ctx.count(('stall', ratio, until), n=len(res['ins']))
         ok = judge(ctx, scen, res) and ok
         ctx.sample({'known_finding_witness': {'sys_clocks_per_bit': ratio, 'consumer_not_ready_until': until, 'accepted': res['accepted'], 'delivered': res['delivered']}}, limit=9)
@@ -418,13 +431,18 @@ def run(ctx):
     tie_ok = not missing and r['ok']
     rng = random.Random(ctx.seed * 1000003 + 17)
     if ctx.quick:
-        ratios = [4, 5, 6, 7, 8, 11, 16, 23, 40]
-        scens = scenarios(ctx, rng, ratios, 4, ['b2b', 'small', 'upto3P'], full_bytes_ratio=[4])
+        # a spread over the bands of the divider's counter width: n = ratio//2 just above / well above / just below each power of two
+        ratios = [4, 5, 6, 7, 8, 10, 11, 13, 16, 18, 20, 22, 23, 29, 34, 40, 47]
+        scens = scenarios(ctx, rng, [4, 5, 6, 7, 8], 3, ['b2b', 'small', 'upto3P'], full_bytes_ratio=[4])
+        scens += scenarios(ctx, rng, [10, 11, 13, 16], 2, ['b2b', 'small', 'upto3P'])
+        big = [18, 20, 22, 23, 29, 34, 40, 47]
+        for j, ra in enumerate(big):                      # the slow ratios: two bytes, one gap family each (rotating with the seed)
+            scens += scenarios(ctx, rng, [ra], 2, [['b2b', 'small', 'upto3P'][(j + ctx.seed) % 3]])
         kern = [{'sys_f': 4, 'uart_f': 1, 'bytes': [0xA5, 0x3C], 'gaps': [0, 2], 'early': True, 'pacing': ('every', 3, 1), 'seed': 1, 'tail': 8},
                 {'sys_f': 7, 'uart_f': 1, 'bytes': [0x81], 'gaps': [3], 'early': False, 'pacing': ('random', 0.4), 'seed': 2, 'tail': 8}]
         nblk = 300
     else:
-        ratios = list(range(4, 41))
+        ratios = list(range(4, 49)) + [63, 64, 65, 66, 70, 96, 130]
         scens = scenarios(ctx, rng, ratios, 10, ['b2b', 'small', 'upto3P', 'long'], full_bytes_ratio=[4, 5, 6, 7, 8, 13, 21, 40])
         scens.append({'sys_f': 50e6, 'uart_f': 115200, 'bytes': [0x5A, 0xC3], 'gaps': [0, 100], 'early': True, 'pacing': ('random', 0.01), 'seed': 3, 'tail': 500})
         kern = [{'sys_f': ra, 'uart_f': 1, 'bytes': [rng.randrange(256) for _ in range(2)], 'gaps': [0, rng.randrange(3 * ra)], 'early': bool(ra % 2),
@@ -436,15 +454,20 @@ def run(ctx):
             return f(*a)
         except RuntimeError as ex:  # the case file no longer compiles against the regenerated definitions
             return {'what': 'correspondence case file cannot be evaluated in Coq (regenerated definitions changed shape)', 'coq_error': str(ex)[-1500:]}
+        except Exception as ex:     # a real block refuses a legal configuration / crashes: the sweep below looks for the failing input
+            import traceback
+            return {'what': 'a real block raised %s: %s while being driven for the correspondence check' % (type(ex).__name__, ex), 'traceback': traceback.format_exc()[-1500:]}
     if not missing:
         tf = coq_side(block_ties, ctx, nblk)
         if tf: ties.append(tf)
     ok = sweep(ctx, scens, 'C17_link', ties, with_model=not missing)
     if ok:
-        singles = [s for s in scenarios(ctx, rng, [4, 6, 9, 16] if ctx.quick else [4, 5, 6, 7, 9, 12, 16, 25, 40], 1, ['small'])]
+        singles = [s for s in scenarios(ctx, rng, [4, 6, 10, 18, 35] if ctx.quick else [4, 5, 6, 7, 9, 10, 12, 16, 18, 22, 25, 34, 40, 44, 66], 1, ['small'])]
         runs1 = []
         for s in singles:
-            res = drive(s); ok = ok and judge(ctx, s, res); runs1.append((s, res))
+            res = drive_checked(ctx, s); ok = ok and res is not None and judge(ctx, s, res)
+            if not ok: break
+            runs1.append((s, res))
             ctx.count(('swrx', s['sys_f'], s['bytes'][0]))
         if ok:
             ok = spec_rx_compare(ctx, 'C17_swrx', runs1)
@@ -456,7 +479,7 @@ def run(ctx):
         ok = stall_cases(ctx)
     if ok and (ties or not tie_ok):
         # a proof obligation, the translation or a correspondence broke and the sweep above found no failing input: widen the search, then report
-        wide = scenarios(ctx, random.Random(ctx.seed + 99), list(range(4, 41, 3)), 5, ['b2b', 'small', 'upto3P', 'long'], full_bytes_ratio=[6])
+        wide = scenarios(ctx, random.Random(ctx.seed + 99), list(range(4, 49)) + [66, 70, 90, 130], 2, ['b2b', 'upto3P'], full_bytes_ratio=[6])
         if not sweep(ctx, wide, 'C17_wide', ties, with_model=False): return
         if missing:
             ctx.violation({'what': 'translator rejected %s: %s' % (missing, {k: ctx.gen['errors'].get(k) for k in missing})}, found_input=False)
